@@ -31,3 +31,28 @@ package routing
 //@ ensures has(idk.data, k) ==> old(has(idk.data, k)) && idk.data[k] == old(idk.data[k])
 //@ loop 0 invariant has(idk.data, k) ==> old(has(idk.data, k)) && idk.data[k] == old(idk.data[k])
 //@ loop 0 invariant old(has(idk.data, k)) && k.time == 0 ==> has(idk.data, k)
+
+// ---- status reports (C15) ----
+
+// Ghost: number of bundles this node originated through SendBundle and the last one.
+// govc:ghostfield $emitted uint64
+// govc:ghostfield $lastOut *bpv7.Bundle
+
+// govc:trusted (*Core).SendBundle
+//@ assigns c.$emitted, c.$lastOut
+//@ ensures c.$emitted == old(c.$emitted) + 1 && c.$lastOut == bndl
+
+// govc:trusted (*BundleDescriptor).Bundle
+//@ assigns descriptor.bndl
+//@ ensures old(descriptor.bndl) != nil ==> result0 == old(descriptor.bndl) && result1 == nil && descriptor.bndl == old(descriptor.bndl)
+//@ ensures result1 == nil ==> result0 != nil && blocksNonNil(*result0) && descriptor.bndl == result0
+
+// No report about an administrative record or about a bundle whose report-to endpoint is this node; otherwise at most
+// one bundle is emitted: an administrative record without any report request, addressed to the subject's report-to.
+// govc:func (*Core).SendStatusReport property C15
+//@ requires descriptor.bndl != nil && blocksNonNil(*descriptor.bndl) && 0 <= status && status < 4
+//@ ensures (uint64(old(descriptor.bndl.PrimaryBlock.BundleControlFlags)) & 0x02) != 0 ==> c.$emitted == old(c.$emitted)
+//@ ensures uf("coreHasEndpoint", bool, c, old(descriptor.bndl.PrimaryBlock.ReportTo)) ==> c.$emitted == old(c.$emitted)
+//@ ensures c.$emitted == old(c.$emitted) || c.$emitted == old(c.$emitted) + 1
+//@ ensures c.$emitted == old(c.$emitted) + 1 ==> c.$lastOut != nil && c.$lastOut.PrimaryBlock.Destination == old(descriptor.bndl.PrimaryBlock.ReportTo)
+//@ ensures c.$emitted == old(c.$emitted) + 1 ==> uint64(c.$lastOut.PrimaryBlock.BundleControlFlags) == 0x02
